@@ -44,7 +44,7 @@ Begin ==
   /\ strict' = [t \in Threads |-> FALSE] /\ priv' = TRUE
   \* the call has been made; its steps follow silently
   /\ pc' = "assemble" /\ kind' = "load" /\ m' = "ld" /\ locked' = FALSE
-  /\ req' = [nnp |-> TRUE, flags |-> FlagsOf(Trace[l]), pol |-> "valid"]
+  /\ req' = [nnp |-> TRUE, flags |-> FlagsOf(Trace[l]), pol |-> "valid", pid |-> 0]
   /\ res' = "none" /\ fid' = 1 /\ loads' = 0 /\ kret' = NoKret /\ synced' = {}
   /\ l' = l + 1 /\ seg' = l
 
